@@ -190,6 +190,22 @@ func prelude() {
 			_, _ = stackage.ConvertCondition(nv.v)
 		}()
 	}
+	// ... and a few comparisons of function-local struct types that print like the harness's struct leaves ("main.eqStruct" ...)
+	// but have other fields: whatever IsEqual remembers per type NAME is wrong for the real ones
+	func() {
+		defer func() { _ = recover() }()
+		type eqStruct struct{ A int }
+		type eqStructP struct {
+			A, B, C, D int
+		}
+		type eqStructX struct{ Z string }
+		type privStruct struct{ Q []int }
+		for _, pair := range [][2]any{{eqStruct{1}, eqStruct{1}}, {eqStructP{1, 2, 3, 4}, eqStructP{1, 2, 3, 4}}, {eqStructX{"z"}, eqStructX{"z"}},
+			{privStruct{[]int{1}}, privStruct{[]int{1}}}} {
+			_ = stackage.And().Push(pair[0]).IsEqual(stackage.And().Push(pair[1]))
+			_ = stackage.Cond("k", stackage.Eq, pair[0]).IsEqual(stackage.Cond("k", stackage.Eq, pair[1]))
+		}
+	}()
 }
 
 // shadowTypes: values of function-local types that carry the SAME printed name as the harness's alias types ("main.AStack" ...)
